@@ -367,6 +367,9 @@ func checkEnveloped(r *Report, p *Prog) {
 			for _, in := range b.Instrs {
 				if st, ok := in.(*ssa.Store); ok {
 					if fa, ok := st.Addr.(*ssa.FieldAddr); ok && fieldName(fa.X.Type(), fa.Field) == "Signature" && typeIs(fa.X.Type(), modPath, s.typ) {
+						if isNilConst(st.Val) {
+							continue // the reset before signing, judged below
+						}
 						sigStore = st
 					}
 				}
@@ -406,6 +409,36 @@ func checkEnveloped(r *Report, p *Prog) {
 			why = "the stored Signature is not the last child of the signing result over the object's own element tree (or is stored although signing failed): " + desc
 		}
 		r.Check(okS, rule, cons, p.Pos(fn.Pos()), "ok", why)
+		// the tree that is signed carries no earlier signature: Element() re-embeds the stored Signature, so signing an
+		// object that was signed before (the constructors sign when a method is configured; the Sign* functions are
+		// exported) would digest a tree with the old <Signature> in it, while the emitted element carries only the new
+		// one — the digest no longer matches. The field is reset before the tree is built.
+		for _, e := range elems {
+			if !rg.IsFrom(RV{V: signCall.Call.Args[1], C: sign.C}, e.at) {
+				continue
+			}
+			reset := false
+			rg.Each(func(x RI) {
+				st, ok := x.I.(*ssa.Store)
+				if !ok || !isNilConst(st.Val) {
+					return
+				}
+				fa, ok := st.Addr.(*ssa.FieldAddr)
+				if !ok || fieldName(fa.X.Type(), fa.Field) != "Signature" || !typeIs(fa.X.Type(), modPath, s.typ) {
+					return
+				}
+				same := false
+				for _, so := range rg.Origins(RV{V: fa.X, C: x.C}) {
+					for _, ro := range rg.Origins(e.recv) {
+						same = same || so.V == ro.V
+					}
+				}
+				if same && rg.Before(x, e.at) {
+					reset = true
+				}
+			})
+			r.Check(reset, rule, fmt.Sprintf("%s: the tree handed to SignEnveloped carries no earlier Signature", p.FnName(fn)), p.InstrPos(e.at.I), "Signature reset to nil before Element()", "the element tree is built while a Signature from an earlier signing may still be stored in the object: Element() embeds it, the new signature digests it, and the emitted element (which carries only the new Signature) does not verify")
+		}
 		// success return only after the store; error of GetSigningContext propagated
 		for _, ret := range fc.Returns() {
 			if isNilConst(Resolve(ret.Results[0])) && sigStore != nil {
